@@ -473,14 +473,21 @@ func OpenKek(uses int) int {
 }
 
 // Reopen models a clean stop/restart: db.Open on the same file with the same key.
-func (s *Sys) Reopen() (Outcome, error) {
+func (s *Sys) Reopen() (o Outcome, err error) {
+	defer func() {
+		if r := recover(); r != nil {
+			// opening the file the server itself wrote must not crash the server (C03: reopening yields the acknowledged state)
+			o = Outcome{Class: "panic", Notes: []string{fmt.Sprintf("db.Open panicked on the file the server wrote: %v", r)}}
+			err = nil
+		}
+	}()
 	before, _ := os.ReadFile(s.Path)
 	k0 := s.KEK.Uses()
 	if err := s.open(); err != nil {
 		return Outcome{Class: "error", Notes: []string{"reopen failed: " + err.Error()}}, nil
 	}
 	after, _ := os.ReadFile(s.Path)
-	o := Outcome{Class: "ok", Kek: OpenKek(s.KEK.Uses() - k0)}
+	o = Outcome{Class: "ok", Kek: OpenKek(s.KEK.Uses() - k0)}
 	if !bytes.Equal(before, after) {
 		o.Notes = append(o.Notes, "db.Open modified the database file")
 	}
@@ -900,7 +907,14 @@ func (s *Sys) Observe(probeLatest bool) ([]SecState, []string) {
 		pp := filepath.Join(s.Dir, "observe.db")
 		os.WriteFile(pp, b, 0o600)
 		defer os.Remove(pp)
-		odb, err = db.Open(pp, s.KEK.inner, audit.New(io.Discard))
+		func() {
+			defer func() {
+				if r := recover(); r != nil {
+					err = fmt.Errorf("db.Open panicked: %v", r)
+				}
+			}()
+			odb, err = db.Open(pp, s.KEK.inner, audit.New(io.Discard))
+		}()
 		if err != nil {
 			return nil, []string{"observer cannot open a copy of the database file: " + err.Error()}
 		}
@@ -969,7 +983,15 @@ func (s *Sys) probeLatest(st []SecState) (map[string]int, error) {
 		return nil, err
 	}
 	defer os.Remove(pp)
-	pdb, err := db.Open(pp, s.KEK.inner, audit.New(io.Discard))
+	var pdb *db.DB
+	func() {
+		defer func() {
+			if r := recover(); r != nil {
+				err = fmt.Errorf("db.Open panicked: %v", r)
+			}
+		}()
+		pdb, err = db.Open(pp, s.KEK.inner, audit.New(io.Discard))
+	}()
 	if err != nil {
 		return nil, err
 	}
